@@ -46,8 +46,13 @@ def _monotonic_factorization(arr_list, total_len):
     codes = np.empty(total_len, dtype=np.uint32)
     labels = np.empty(total_len, dtype=arr_list[0].dtype)
 
+    if total_len == 0:
+        return 0, codes, labels
     arr_num = 0
     arr = arr_list[arr_num]
+    while len(arr) == 0:
+        arr_num += 1
+        arr = arr_list[arr_num]
 
     if arr[0] != arr[0]:
         # a null first key: no prefix is monotonic (and nulls get no label)
@@ -60,7 +65,7 @@ def _monotonic_factorization(arr_list, total_len):
     cur_arr_pos = 0
     for i in range(1, total_len):
         cur_arr_pos += 1
-        if cur_arr_pos == len(arr):
+        while cur_arr_pos == len(arr):
             arr_num += 1
             arr = arr_list[arr_num]
             cur_arr_pos = 0
@@ -75,7 +80,7 @@ def _monotonic_factorization(arr_list, total_len):
         codes[i] = n_labels - 1
         prev = x
 
-    return i + 1, codes, labels[:n_labels]
+    return total_len, codes, labels[:n_labels]
 
 
 def monotonic_factorization(arr: ArrayType1D) -> Tuple[int, np.ndarray, pd.Index]:
